@@ -714,8 +714,11 @@ class DBusObjectHandler :
         """
         d = {}
 
+        # only match whole path elements: /a/bc is not beneath /a/b
+        prefix = objectPath if objectPath.endswith('/') else objectPath + '/'
+
         for p in sorted(self.exports.keys()):
-            if not p.startswith(objectPath) or p == objectPath:
+            if not p.startswith(prefix) or p == objectPath:
                 continue
             o = self.exports[p]
             i = {}
